@@ -43,9 +43,10 @@ structure Spec where
   dur : List (Nat × Bytes) := []            -- content at the last data sync per file id
   dents : List ((Nat × Nat) × Ent) := []    -- durable children: (dir id, name) ↦ entry
   wlog : List (Nat × Nat × Bytes) := []     -- unsynced writes (file id, offset, data), in order
-  touched : List (Ent × Nat) := []          -- ghost, used by the F-11 variant only (Model/Fixed.lean):
-                                            -- (entry, dir id) = an unsynced create / rename of the
-                                            -- entry involves that directory
+  touched : List (Ent × Nat × (Nat × Nat)) := []   -- ghost, used by the F-11 variant only (Model/Fixed.lean):
+                                            -- (entry, dir id, dest) = an unsynced rename of the entry
+                                            -- involves that directory and put the entry at `dest`
+                                            -- (dir id, name)
   deriving Inhabited
 
 def Live.init : Live := {}
